@@ -12,6 +12,7 @@ package concfam
 import (
 	"errors"
 	"fmt"
+	"maps"
 	"runtime"
 	"sort"
 	"sync"
@@ -103,6 +104,14 @@ type cacheRun struct {
 	events []hEvent
 	parked []*parkedFetch
 	signal chan struct{}
+	// maps returned by GetMap, with a copy taken at once
+	held        []heldMap
+	stopReaders chan struct{}
+}
+
+type heldMap struct {
+	g, op   int
+	m, snap map[string]string
 }
 
 type parkedFetch struct {
@@ -146,9 +155,9 @@ func (r *cacheRun) settle(cond func() bool) {
 func propC16Cache(c c16CacheCase) (ev.Outcome, error) {
 	var o ev.Outcome
 	cache := datasource.NewRequestCache[string, string]()
-	r := &cacheRun{signal: make(chan struct{}, 64)}
+	r := &cacheRun{signal: make(chan struct{}, 64), stopReaders: make(chan struct{})}
 	nw := len(c.Workers)
-	next := make([]int, nw)     // next op index per worker
+	next := make([]int, nw)         // next op index per worker
 	busy := make([]atomic.Bool, nw) // an op of the worker is running
 	var wg sync.WaitGroup
 
@@ -189,13 +198,40 @@ func propC16Cache(c c16CacheCase) (ev.Outcome, error) {
 				for _, k := range op.Keys {
 					m[k] = fmt.Sprintf("set-%d-%d-%s", g, opi, k)
 				}
-				r.rec(hEvent{Kind: "setmap_start", G: g, Op: opi, Keys: op.Keys, Map: m})
+				r.rec(hEvent{Kind: "setmap_start", G: g, Op: opi, Keys: op.Keys, Map: maps.Clone(m)})
 				cache.SetMap(m)
 				r.rec(hEvent{Kind: "setmap_end", G: g, Op: opi})
+				// the caller goes on using its own map: SetMap loads a clone
+				for k := range m {
+					m[k] = "changed-by-the-caller-after-SetMap"
+				}
+				m["added-by-the-caller-after-SetMap"] = "x"
 			case "getmap":
 				r.rec(hEvent{Kind: "getmap_start", G: g, Op: opi})
 				m := cache.GetMap()
-				r.rec(hEvent{Kind: "getmap_end", G: g, Op: opi, Map: m})
+				snap := maps.Clone(m)
+				r.rec(hEvent{Kind: "getmap_end", G: g, Op: opi, Map: snap})
+				// the caller keeps (and keeps reading) the map it was given: it is a snapshot
+				r.mu.Lock()
+				r.held = append(r.held, heldMap{g: g, op: opi, m: m, snap: snap})
+				r.mu.Unlock()
+				wg.Add(1)
+				go func() {
+					defer wg.Done()
+					for {
+						select {
+						case <-r.stopReaders:
+							return
+						default:
+						}
+						n := 0
+						for _, v := range m {
+							n += len(v)
+						}
+						_ = n
+						runtime.Gosched()
+					}
+				}()
 			}
 		}()
 		return true
@@ -266,9 +302,17 @@ func propC16Cache(c c16CacheCase) (ev.Outcome, error) {
 	select {
 	case <-done:
 	case <-time.After(20 * time.Second):
+		close(r.stopReaders)
 		return o, fmt.Errorf("request cache: operations did not finish within 20 s after every fetch was released (a Get never returned)")
 	}
+	close(r.stopReaders)
 	wg.Wait()
+	// (0) a map returned by GetMap is a snapshot: it does not change after it was returned
+	for _, h := range r.held {
+		if !maps.Equal(h.m, h.snap) {
+			return o, fmt.Errorf("request cache: the map GetMap returned to worker %d (op %d) changed after it was returned: it was %v and is now %v; no sequential order of the calls explains a result that changes afterwards", h.g, h.op, h.snap, h.m)
+		}
+	}
 
 	// ---- verdict over the history ----
 	evs := append([]hEvent(nil), r.events...)
@@ -291,6 +335,12 @@ func propC16Cache(c c16CacheCase) (ev.Outcome, error) {
 		start, end int64
 		m          map[string]string
 	}
+	type snapshot struct {
+		start, end int64
+		m          map[string]string
+	}
+	var snaps []*snapshot
+	snapOpen := map[[2]int]*snapshot{}
 	fetches := map[[2]int]*fetch{}
 	gets := map[[2]int]*get{}
 	var sets []*setm
@@ -315,6 +365,11 @@ func propC16Cache(c c16CacheCase) (ev.Outcome, error) {
 			sets = append(sets, s)
 		case "setmap_end":
 			setOpen[k].end = e.T
+		case "getmap_start":
+			snapOpen[k] = &snapshot{start: e.T}
+			snaps = append(snaps, snapOpen[k])
+		case "getmap_end":
+			snapOpen[k].end, snapOpen[k].m = e.T, e.Map
 		}
 	}
 	// The property speaks about concurrent LOOKUPS. A SetMap that replaces the map while a
@@ -393,6 +448,46 @@ func propC16Cache(c c16CacheCase) (ev.Outcome, error) {
 			}
 			if b.err || b.val != a.val {
 				return o, fmt.Errorf("request cache: Get(%s) started after a successful Get returned %q but observed %q (err=%v)", b.key, a.val, b.val, b.err)
+			}
+		}
+	}
+	// (4) a GetMap snapshot holds only values that a successful fetch (ended before GetMap
+	// returned) or a SetMap (started before GetMap returned) produced; without any SetMap in
+	// the history it holds the value of every successful Get that returned before GetMap started
+	for _, sn := range snaps {
+		for k, v := range sn.m {
+			ok := false
+			for _, f := range fl {
+				if f.key == k && !f.err && f.val == v && f.end < sn.end {
+					ok = true
+				}
+			}
+			for _, s := range sets {
+				if sv, has := s.m[k]; has && sv == v && s.start < sn.end {
+					ok = true
+				}
+			}
+			if !ok {
+				return o, fmt.Errorf("request cache: GetMap (t=%d..%d) returned %s=%q, which no fetch completed before it returned and no SetMap produced", sn.start, sn.end, k, v)
+			}
+		}
+		if len(sets) == 0 {
+			for _, g := range gets {
+				if !g.err && g.end != 0 && g.end < sn.start {
+					if v, has := sn.m[g.key]; !has || v != g.val {
+						return o, fmt.Errorf("request cache: GetMap started (t=%d) after Get(%s) had returned %q (t=%d) but its snapshot holds %q (present: %v)", sn.start, g.key, g.val, g.end, v, has)
+					}
+				}
+			}
+		}
+	}
+	if len(snaps) > 0 {
+		o.Classes = append(o.Classes, "with_getmap")
+	}
+	for _, sn := range snaps {
+		for _, f := range fl {
+			if f.start < sn.start && f.end > sn.end {
+				o.Classes = append(o.Classes, "getmap_while_fetch_in_flight")
 			}
 		}
 	}
